@@ -26,7 +26,7 @@ TOK = re.compile(r'''(?:u8|u|U|L)?"(?:[^"\\\n]|\\.)*"|(?:u8|u|U|L)?'(?:[^'\\\n]|
                  r'''|<<=|>>=|\.\.\.|->|\+\+|--|<<|>>|<=|>=|==|!=|&&|\|\||[*/%+\-&^|]=|##|::|\S''')
 DIAG = re.compile(r'^(.*?):(\d+):(\d+): error: (.*)$')
 
-MACROS = ['#define ID(...) __VA_ARGS__', '#define TWO(a, b) a b', '#define EMPTY', '#define SEMI ;']
+MACROS = ['#define DOTS(a) a..b . .. c', '#define ID(...) __VA_ARGS__', '#define TWO(a, b) a b', '#define EMPTY', '#define SEMI ;']
 
 
 def tokens(text):
@@ -50,7 +50,7 @@ def fillers(r, n, scope, plain_first=False):
             # the token right after the violation is the one a look-ahead diagnostic blames: keep it a source token
             t = 'int f_%d = %d;' if scope == 'file' else 'gi = %d + %d;'
         elif scope == 'file':
-            t = r.choice(['int f_%d = %d;', 'static long s_%d(int a) { return a + %d; }', 'typedef struct f_%d { int m; } t_%d;', 'ID(extern int e_%d;) ID(extern char c_%d[3];)',
+            t = r.choice(['int f_%d = %d;', 'static long s_%d(int a) { return a + %d; }', 'int v_%d(int, ...);', 'typedef struct f_%d { int m; } t_%d;', 'ID(extern int e_%d;) ID(extern char c_%d[3];)',
                           'TWO(int, g_%d) = TWO(1 +, %d);', 'enum { K_%d = %d & 1023 };', 'EMPTY char h_%d[] = "a b /* not a comment */ // %d";', 'int (*p_%d)(int) EMPTY SEMI'])
         else:
             t = r.choice(['gi = %d + %d;', 'if (gj == %d) gi = %d;', '{ int q_%d = %d; gj += q_%d; }', 'ID(gi) = TWO(gj +, %d);', 'gd = %d.5 * %d;', 'gcs = "x%dy" "z";', 'ID(gv)();', 'while (gi > %d) gi -= 1 SEMI'])
@@ -110,7 +110,7 @@ class Render:
         return [''.join(p) for p in self.parts]
 
 
-FILENAMES = ['a.c', 'dir/b.h', 'x y.c', '<built-in>', 'very/long/path/to/some/header_file-1.2.h', 'q.c', 'A', '..', '/usr/include/stdio.h', '<stdin>', 'a,b.c', "it's.c"]
+FILENAMES = ['a.c.in', 'a.c', 'a', '', 'dir/b.h.orig', 'L' * 600 + '.c', 'dir/b.h', 'x y.c', '<built-in>', 'very/long/path/to/some/header_file-1.2.h', 'q.c', 'A', '..', '/usr/include/stdio.h', '<stdin>', 'a,b.c', "it's.c"]
 WORDS = ['lorem', 'ipsum', '"quote', "it's", '#define X', 'int y = z;', '//', '*', '\\', '# 9 "no.c"', '??/']
 
 
@@ -185,7 +185,7 @@ def between_lines(r, rn, level, allow_marker=True):
         elif allow_marker:
             marker(r, rn)
             if r.random() < 0.4:
-                rn.emit(r.choice(['\n', '\n\n', '/* c */\n', '// c\n', '\\\n\n']))      # the line right after a marker is blank
+                rn.emit(r.choice(['\n', '\n\n', '/* c */\n', '// c\n', '\\\n\n', '\\\n\\\n', '\\\n\\\n\\\n\n', '\\\n/* c\n */\\\n']))      # the line right after a marker is blank / spliced
 
 
 def render(lines, r, level, files, splits):
